@@ -13,6 +13,7 @@ import (
 	"encoding/json"
 	"fmt"
 	"math/big"
+	"strconv"
 	"strings"
 	"sync"
 	"unsafe"
@@ -164,10 +165,26 @@ func p384Scalar(label string) []byte {
 	return v.FillBytes(make([]byte, 48))
 }
 
-var e2ePatterns = []string{"lower-case letters", "binary with interior zero bytes", "one or two leading zero bytes, then letters"}
+var e2ePatterns = []string{"lower-case letters", "binary with interior zero bytes", "one or two leading zero bytes, then letters", "special name"}
 
 // e2eName never ends in a zero byte, and neither does the name without its last byte.
+// special registered names with neighbours of their own (pattern 3; Len indexes this table): names
+// that text processing could read as patterns or lists
+var specialNames = []struct {
+	name       string
+	neighbours []string
+}{
+	{"*.shop.example", []string{"a.shop.example", "shop.example", ".shop.example", "x.y.shop.example", "*.example", "*"}},
+	{"shop.example", []string{"*.example", "*.shop.example", "a.shop.example", "shop.example.", "SHOP.example", "shop.example:443", "shop.example,other.example", "https://shop.example"}},
+	{"a.example,b.example", []string{"a.example", "b.example", "a.example,b.example,c.example", "a.example, b.example"}},
+	{"%2e.example", []string{"..example", "%2E.example", "%.example"}},
+	{"xn--bcher-kva.example", []string{"bücher.example", "xn--bcher-kva.example.", "XN--BCHER-KVA.example"}},
+}
+
 func e2eName(n, pattern int) []byte {
+	if pattern == 3 {
+		return []byte(specialNames[n].name)
+	}
 	b := mc.Fill(seedBase, fmt.Sprintf("c20-origin-%d-%d", n, pattern), n)
 	for i := range b {
 		switch pattern {
@@ -310,9 +327,12 @@ func runE2E(c e2eCase) (res e2eResult) {
 		res.v = &mc.Viol{Sig: "issuer refuses to register an origin name that does not end in a zero byte (" + e2ePatterns[c.Pattern] + ")", What: fmt.Sprintf("%s: %v", id, err)}
 		return
 	}
+	// ONE client object makes all requests of the case (the registered name first, then every
+	// neighbour: shorter ones after longer ones, longer ones after shorter ones)
+	cl := type3.NewRateLimitedClientFromSecret(p384Scalar("sec-" + c.label()))
 	args := func(origin []byte, tag string) px.T3Args {
 		return px.T3Args{Secret: p384Scalar("sec-" + c.label()), Blind: p384Scalar("bl-" + c.label() + tag), Challenge: mc.Fill(seedBase, "chal-"+c.label(), 32),
-			Nonce: mc.Fill(seedBase, "nonce-"+c.label()+tag, 32), Origin: string(origin)}
+			Nonce: mc.Fill(seedBase, "nonce-"+c.label()+tag, 32), Origin: string(origin), Client: &cl}
 	}
 	// one request: create, measure, evaluate from bytes
 	do := func(origin []byte, kind string, wantServed bool) *mc.Viol {
@@ -360,7 +380,13 @@ func runE2E(c e2eCase) (res e2eResult) {
 		res.v = v
 		return
 	}
-	for _, nb := range neighbours(name) {
+	nbs := neighbours(name)
+	if c.Pattern == 3 {
+		for _, n := range specialNames[c.Len].neighbours {
+			nbs = append(nbs, neighbour{"look-alike " + strconv.Quote(n), []byte(n)})
+		}
+	}
+	for _, nb := range nbs {
 		if v := do(nb.Name, nb.Kind, false); v != nil {
 			res.v = v
 			return
@@ -430,12 +456,15 @@ func main() {
 	lens = append(lens, mc.Pick(r, []int{1023, 1024, 1025, 2047, 2048, 2049, 4096, 8192, 16384, 65000}, []int{8191, 8192, 8193, 16384, 32767, 32768, 32769, 60000, 65000})...)
 	var cases []e2eCase
 	for _, n := range lens {
-		for p := range e2ePatterns {
+		for p := range e2ePatterns[:3] {
 			if n == 0 && p > 0 {
 				continue
 			}
 			cases = append(cases, e2eCase{Len: n, Pattern: p, RSA: (n + p) % 4})
 		}
+	}
+	for i := range specialNames {
+		cases = append(cases, e2eCase{Len: i, Pattern: 3, RSA: i % 4})
 	}
 	var mu sync.Mutex
 	byBlocks := map[int]map[int]bool{} // blocks -> set of wire lengths
